@@ -122,6 +122,16 @@ func NewDecision(r Respond, exec rule.Executor) *HTTPStack {
 	return &HTTPStack{h: decision.VerifNewService(conf, theCache(), zerolog.Nop(), exec).Handler}
 }
 
+// NewDecisionWith / NewProxyWith / NewEnvoyWith build the stacks from an already
+// loaded heimdall configuration (used by streams that run the real configuration loader).
+func NewDecisionWith(conf *config.Configuration, exec rule.Executor) *HTTPStack {
+	return &HTTPStack{h: decision.VerifNewService(conf, theCache(), zerolog.Nop(), exec).Handler}
+}
+
+func NewProxyWith(conf *config.Configuration, exec rule.Executor) *HTTPStack {
+	return &HTTPStack{h: proxy.VerifNewService(conf, theCache(), zerolog.Nop(), exec).Handler}
+}
+
 func NewProxy(r Respond, exec rule.Executor) *HTTPStack {
 	conf := &config.Configuration{}
 	conf.Serve.Proxy = r.serviceConfig()
@@ -130,12 +140,25 @@ func NewProxy(r Respond, exec rule.Executor) *HTTPStack {
 }
 
 // Do sends GET /verif with the given Accept header (nil = none) through the chain.
-func (s *HTTPStack) Do(accept *string) (res Result) {
-	rec := httptest.NewRecorder()
-	req := httptest.NewRequest(http.MethodGet, "http://heimdall.local/verif", nil)
+func (s *HTTPStack) Do(accept *string) Result { return s.DoPath("/verif", accept) }
 
+// DoPath sends GET <path> (raw, as on the wire) with the given Accept header through the chain.
+func (s *HTTPStack) DoPath(path string, accept *string) Result {
+	hdrs := map[string]string{}
 	if accept != nil {
-		req.Header["Accept"] = []string{*accept}
+		hdrs["Accept"] = *accept
+	}
+
+	return s.DoHeaders(path, hdrs)
+}
+
+// DoHeaders sends GET <path> with the given request headers through the chain.
+func (s *HTTPStack) DoHeaders(path string, hdrs map[string]string) (res Result) {
+	rec := httptest.NewRecorder()
+	req := httptest.NewRequest(http.MethodGet, "http://heimdall.local"+path, nil)
+
+	for k, v := range hdrs {
+		req.Header[http.CanonicalHeaderKey(k)] = []string{v}
 	}
 
 	defer func() {
@@ -168,6 +191,10 @@ func NewEnvoy(r Respond, exec rule.Executor) *EnvoyStack {
 	conf := &config.Configuration{}
 	conf.Serve.Decision = r.serviceConfig()
 
+	return NewEnvoyWith(conf, exec)
+}
+
+func NewEnvoyWith(conf *config.Configuration, exec rule.Executor) *EnvoyStack {
 	lis := bufconn.Listen(1 << 20)
 	srv := grpcv3.VerifNewService(conf, theCache(), zerolog.Nop(), exec)
 
@@ -188,17 +215,30 @@ func (s *EnvoyStack) Close() {
 	s.srv.Stop()
 }
 
-func (s *EnvoyStack) Do(accept *string) Result {
-	headers := map[string]string{}
+func (s *EnvoyStack) Do(accept *string) Result { return s.DoPath("/verif", accept) }
+
+// DoPath sends a CheckRequest for GET <path> (Envoy hands over the raw :path).
+func (s *EnvoyStack) DoPath(path string, accept *string) Result {
+	hdrs := map[string]string{}
 	if accept != nil {
-		headers["accept"] = *accept
+		hdrs["accept"] = *accept
+	}
+
+	return s.DoHeaders(path, hdrs)
+}
+
+// DoHeaders sends a CheckRequest for GET <path> with the given request headers (lower-cased, as Envoy does).
+func (s *EnvoyStack) DoHeaders(path string, hdrs map[string]string) Result {
+	headers := map[string]string{}
+	for k, v := range hdrs {
+		headers[strings.ToLower(k)] = v
 	}
 
 	resp, err := s.client.Check(context.Background(), &envoy_auth.CheckRequest{
 		Attributes: &envoy_auth.AttributeContext{
 			Request: &envoy_auth.AttributeContext_Request{
 				Http: &envoy_auth.AttributeContext_HttpRequest{
-					Method: http.MethodGet, Scheme: "http", Host: "heimdall.local", Path: "/verif", Headers: headers,
+					Method: http.MethodGet, Scheme: "http", Host: "heimdall.local", Path: path, Headers: headers,
 				},
 			},
 		},
@@ -252,16 +292,20 @@ type Upstream struct {
 
 func NewUpstream() *Upstream {
 	u := &Upstream{}
-	u.srv = httptest.NewServer(http.HandlerFunc(func(rw http.ResponseWriter, _ *http.Request) {
+	u.srv = httptest.NewUnstartedServer(http.HandlerFunc(func(rw http.ResponseWriter, _ *http.Request) {
 		u.hits.Add(1)
 		rw.Header().Set("X-Verif-Upstream", "1")
 		rw.WriteHeader(http.StatusOK)
 	}))
+	// every proxy stack has its own transport: without keep-alives no idle connection outlives its case
+	u.srv.Config.SetKeepAlivesEnabled(false)
+	u.srv.Start()
 
 	return u
 }
 
-func (u *Upstream) URL() string { return u.srv.URL }
+func (u *Upstream) URL() string  { return u.srv.URL }
+func (u *Upstream) Host() string { return strings.TrimPrefix(u.srv.URL, "http://") }
 func (u *Upstream) Hits() int64 { return u.hits.Load() }
 func (u *Upstream) Reset()      { u.hits.Store(0) }
 func (u *Upstream) Close()      { u.srv.Close() }
